@@ -2,9 +2,11 @@ package condition
 
 import (
 	"errors"
+	"fmt"
 	"reflect"
 	"strings"
 	"sync"
+	"sync/atomic"
 
 	"github.com/expr-lang/expr"
 	"github.com/expr-lang/expr/ast"
@@ -181,6 +183,10 @@ var nullSafeArithmeticFuncs = map[string]string{
 
 type nullSafeComparisonPatcher struct{}
 
+// lazyOperandSeq numbers the variables that hold the left operand of a lazily
+// evaluated AND/OR.
+var lazyOperandSeq int64
+
 func (nullSafeComparisonPatcher) Visit(node *ast.Node) {
 	switch n := (*node).(type) {
 	case *ast.BinaryNode:
@@ -190,15 +196,29 @@ func (nullSafeComparisonPatcher) Visit(node *ast.Node) {
 		}
 		if !ok {
 			// a NULL (non-boolean) operand of AND/OR is unknown, not a failure:
-			// TRUE OR NULL is TRUE, FALSE AND NULL is FALSE
+			// TRUE OR NULL is TRUE, FALSE AND NULL is FALSE. The right operand is
+			// only evaluated when the left one does not decide the result, as in the
+			// normal program: `x IS NULL OR abs(x) > 1` must not fail on abs(NULL).
+			var decided string
+			var outcome bool
 			switch n.Operator {
 			case "||", "or":
-				fn, ok = "__sql_or", true
+				fn, decided, outcome = "__sql_or", "__sql_is_true", true
 			case "&&", "and":
-				fn, ok = "__sql_and", true
+				fn, decided, outcome = "__sql_and", "__sql_is_false", false
+			default:
+				return
 			}
-		}
-		if !ok {
+			left := fmt.Sprintf("__sql_left_%d", atomic.AddInt64(&lazyOperandSeq, 1))
+			ast.Patch(node, &ast.VariableDeclaratorNode{
+				Name:  left,
+				Value: n.Left,
+				Expr: &ast.ConditionalNode{
+					Cond: &ast.CallNode{Callee: &ast.IdentifierNode{Value: decided}, Arguments: []ast.Node{&ast.IdentifierNode{Value: left}}},
+					Exp1: &ast.BoolNode{Value: outcome},
+					Exp2: &ast.CallNode{Callee: &ast.IdentifierNode{Value: fn}, Arguments: []ast.Node{&ast.IdentifierNode{Value: left}, n.Right}},
+				},
+			})
 			return
 		}
 		ast.Patch(node, &ast.CallNode{
@@ -330,6 +350,14 @@ func nullSafeComparisonOptions() []expr.Option {
 			}
 			return nil, nil
 		}, new(func(any, any) any)),
+		expr.Function("__sql_is_true", func(params ...any) (any, error) {
+			v, ok := truth(params[0])
+			return ok && v, nil
+		}, new(func(any) bool)),
+		expr.Function("__sql_is_false", func(params ...any) (any, error) {
+			v, ok := truth(params[0])
+			return ok && !v, nil
+		}, new(func(any) bool)),
 		expr.Function("__sql_not", func(params ...any) (any, error) {
 			if len(params) == 1 {
 				if a, ok := truth(params[0]); ok {
